@@ -444,3 +444,4 @@ Qed.
 Lemma gen_apply cs : Forall (fun c => length c = length em) cs -> apply_ws em (chain_cmds u em cs) = last_cache em cs.
 Proof. intro Hl. apply (chain_apply u ku Hu cs em Hk). eapply Forall_impl; [|exact Hl]. cbv beta. intros; congruence. Qed.
 End Generic.
+Set Default Proof Using "Type".
